@@ -1,0 +1,29 @@
+//go:build verif
+
+// Contracts read by /verif/govc (comment-only; never compiled into the node).
+
+package work_package
+
+// GP (14.8) work digest: (s, c, y, a, l, u, i, x, z, e) taken field by field from the item, the refinement outcome and
+// the gas used; y is the Blake2b hash of the payload for EVERY payload (incl. the empty one); x, i count entries.
+//@ func C
+//@   props C32
+//@   requires sizes: len(item.ImportSegments) < 65536 && len(item.Extrinsic) < 65536
+//@   ensures ids: result.ServiceID == item.Service && result.CodeHash == item.CodeHash && result.AccumulateGas == item.AccumulateGasLimit
+//@   ensures payload: result.PayloadHash == hash.Blake2bHash(item.Payload)
+//@   ensures outcome: result.Result == local_result
+//@   ensures load: result.RefineLoad.GasUsed == gas && int(result.RefineLoad.Imports) == len(item.ImportSegments) && int(result.RefineLoad.ExtrinsicCount) == len(item.Extrinsic) && result.RefineLoad.Exports == item.ExportCount
+//@   loop rangeindex#0
+//@     invariant range: rangeindex >= -1 && rangeindex < len(item.Extrinsic)
+//@     invariant frame: frame_only()
+
+// the extrinsic size for work items with at most three extrinsics (loop unrolled): the sum of their lengths
+//@ func C {bounded}
+//@   props C32
+//@   opt bounded=len(item.Extrinsic) <= 3 (loop unrolled)
+//@   opt unroll=5
+//@   requires sizes: len(item.ImportSegments) < 65536 && len(item.Extrinsic) <= 3
+//@   ensures size0: len(item.Extrinsic) == 0 ==> result.RefineLoad.ExtrinsicSize == 0
+//@   ensures size1: len(item.Extrinsic) == 1 ==> result.RefineLoad.ExtrinsicSize == item.Extrinsic[0].Len
+//@   ensures size2: len(item.Extrinsic) == 2 ==> result.RefineLoad.ExtrinsicSize == item.Extrinsic[0].Len + item.Extrinsic[1].Len
+//@   ensures size3: len(item.Extrinsic) == 3 ==> result.RefineLoad.ExtrinsicSize == item.Extrinsic[0].Len + item.Extrinsic[1].Len + item.Extrinsic[2].Len
